@@ -213,3 +213,102 @@ func init() {
 		return v, true
 	}
 }
+
+// encoding/binary fixed-width readers and writers (trusted: bounds and value ranges).
+func init() {
+	for _, order := range []string{"littleEndian", "bigEndian"} {
+		for _, w := range []struct {
+			name string
+			n    int64
+		}{{"Uint16", 2}, {"Uint32", 4}, {"Uint64", 8}} {
+			w := w
+			full := "(encoding/binary." + order + ")." + w.name
+			libModelDocs[full] = fmt.Sprintf("reads %d bytes (panics if the slice is shorter); result is the exact little/big-endian value", w.n)
+			libModels[full] = func(fv *FV, e *Env, x *ast.CallExpr, recv *Value, args []Value) (Value, bool) {
+				if len(args) != 1 || args[0].K != kSlice {
+					return Value{}, false
+				}
+				c := ge(args[0].Len, intLit(w.n))
+				fv.oblige(e, "bounds", x, fmt.Sprintf("binary.%s needs %d bytes", w.name, w.n), c)
+				fv.assume(e, c)
+				// exact value: sum of bytes weighted by powers of 256
+				inner := fv.sliceInner(e, args[0], sInt)
+				var sum Term
+				for k := int64(0); k < w.n; k++ {
+					idx := k
+					if order == "bigEndian" {
+						idx = w.n - 1 - k
+					}
+					b := sel(inner, add(args[0].Off, intLit(idx)))
+					fv.assume(e, and(le(intLit(0), b), le(b, intLit(255))))
+					t := mul(b, bigLit(pow2(uint(8*k))))
+					if k == 0 {
+						sum = b
+					} else {
+						sum = add(sum, t)
+					}
+				}
+				r := fv.s.freshConst("le", sInt)
+				fv.s.assume(eq(r, sum))
+				return Value{K: kScalar, T: r, Type: fv.typeOf(x)}, true
+			}
+			pfull := "(encoding/binary." + order + ").Put" + w.name
+			libModelDocs[pfull] = fmt.Sprintf("writes %d bytes (panics if the slice is shorter)", w.n)
+			libModels[pfull] = func(fv *FV, e *Env, x *ast.CallExpr, recv *Value, args []Value) (Value, bool) {
+				if len(args) != 2 || args[0].K != kSlice {
+					return Value{}, false
+				}
+				c := ge(args[0].Len, intLit(w.n))
+				fv.oblige(e, "bounds", x, fmt.Sprintf("binary.Put%s needs %d bytes", w.name, w.n), c)
+				fv.assume(e, c)
+				fv.havocSliceElems(e, args[0], types.Typ[types.Uint8])
+				return Value{}, true
+			}
+		}
+	}
+}
+
+// Dynamic dispatch of mkvs node.Node.GetHash over its two implementers.
+func init() {
+	full := "(" + modPrefix + "storage/mkvs/node.Node).GetHash"
+	libModelDocs[full] = "dispatches on the dynamic type: (*InternalNode).Hash or (*LeafNode).Hash (both GetHash methods return the cached field)"
+	libModels[full] = func(fv *FV, e *Env, x *ast.CallExpr, recv *Value, args []Value) (Value, bool) {
+		if recv == nil {
+			return Value{}, false
+		}
+		it := fv.typeOf(x.Fun.(*ast.SelectorExpr).X)
+		if it == nil {
+			return Value{}, false
+		}
+		pkg := it.(*types.Named).Obj().Pkg()
+		inT := pkg.Scope().Lookup("InternalNode").Type()
+		lfT := pkg.Scope().Lookup("LeafNode").Type()
+		field := func(t types.Type) *types.Var {
+			st := t.Underlying().(*types.Struct)
+			for i := 0; i < st.NumFields(); i++ {
+				if st.Field(i).Name() == "Hash" {
+					return st.Field(i)
+				}
+			}
+			return nil
+		}
+		hi := fv.loadComp(e, fieldComp(inT, field(inT)), sBlob, recv.T)
+		hl := fv.loadComp(e, fieldComp(lfT, field(lfT)), sBlob, recv.T)
+		r := fv.s.freshConst("nodehash", sBlob)
+		fv.assume(e, implies(eq(fv.dynOf(recv.T), fv.dynTag(types.NewPointer(inT))), eq(r, hi)))
+		fv.assume(e, implies(eq(fv.dynOf(recv.T), fv.dynTag(types.NewPointer(lfT))), eq(r, hl)))
+		return Value{K: kScalar, T: r, Type: fv.typeOf(x)}, true
+	}
+}
+
+func init() {
+	full := "(context.Context).Err"
+	libModelDocs[full] = "a function of the context (cancellation is sticky: once non-nil it stays non-nil; modelled as fixed during one call)"
+	libModels[full] = func(fv *FV, e *Env, x *ast.CallExpr, recv *Value, args []Value) (Value, bool) {
+		if recv == nil {
+			return Value{}, false
+		}
+		fv.s.declFun("ctx_err", []string{sRef}, sRef)
+		return Value{K: kScalar, T: app(sRef, "ctx_err", recv.T), Type: fv.typeOf(x)}, true
+	}
+}
